@@ -8,6 +8,7 @@ Cmds == <<
   C("ct_add_test", <<"NAME", "@", "EXPECTFAILX", "expectfail_not">>),
   C("ct_add_section", <<"NAME", "@", "EXPECTFAIL">>),
   C("ct_add_section", <<"x", "NAME", "@">>),
+  C("ct_add_section", <<"NAME", "@", "EXPECTFAIL-is-reported", "name.y">>),
   C("add_test", <<"NAME", "@", "COMMAND", "prog", "--x">>),
   C("add_test", <<"COMMAND", "prog", "NAME", "@">>),
   C("add_test", <<"NAME", "@", "COMMAND", "@", "--RENAME">>),
